@@ -4,7 +4,7 @@ import ast
 import operator
 import re
 
-from flow.record.base import GroupedRecord, Record, dynamic_fieldtype
+from flow.record.base import DynamicFieldtypeModule, GroupedRecord, Record, dynamic_fieldtype
 from flow.record.fieldtypes import net
 from flow.record.whitelist import WHITELIST, WHITELIST_TREE
 
@@ -524,6 +524,7 @@ class RecordContextMatcher:
         self.selector_backtrace = []
         self.selector_backtrace_verbosity = backtrace_verbosity
         self.data = {}
+        self.allowed_callables = []
         self.rec = None
 
     def matches(self, rec):
@@ -548,7 +549,15 @@ class RecordContextMatcher:
         # Type matcher
         self.data["Type"] = TypeMatcher(rec)
 
+        # The callables exposed to selectors (fixed before evaluation adds generator variables)
+        self.allowed_callables = [value for value in self.data.values() if callable(value)]
+
         return self.eval(self.expression.body)
+
+    def _is_allowed_callable(self, func):
+        if isinstance(func, DynamicFieldtypeModule):
+            return func.path in WHITELIST
+        return any(func is allowed for allowed in self.allowed_callables)
 
     def eval(self, node):
         r = self._eval(node)
@@ -630,13 +639,20 @@ class RecordContextMatcher:
             if not isinstance(node.func, (ast.Attribute, ast.Name)):
                 raise InvalidOperation("Error, only ast.Attribute or ast.Name are expected")
 
-            func_name = resolve_attr_path(node)
-            if not (callable(self.data.get(func_name)) or func_name in WHITELIST):
+            # Resolve the callee first and allow the call only if the callee itself is one of the exposed
+            # functions or a whitelisted field type: a name that merely looks like one (a method called
+            # `upper`, a generator variable holding a callable) is not.
+            try:
+                func = self.eval(node.func)
+            except AttributeError:
+                # not a known name or field type
+                func = None
+            if not self._is_allowed_callable(func):
                 raise InvalidOperation(
-                    "Call '{}' not allowed. No calls other then whitelisted 'global' calls allowed!".format(func_name)
+                    "Call '{}' not allowed. No calls other then whitelisted 'global' calls allowed!".format(
+                        resolve_attr_path(node)
+                    )
                 )
-
-            func = self.eval(node.func)
 
             args = list(map(self.eval, node.args))
             kwargs = dict((kw.arg, self.eval(kw.value)) for kw in node.keywords)
